@@ -33,6 +33,8 @@ var zzC11Scripts = []string{
 	"function f(x) { return x * 2; } n = n + 1; return f(Count) > 6 && Name in [\"steve\", \"bob\"];",
 	"n = n + 1; h = {\"lim\": 3, Name: Count}; return h[Name] > h[\"lim\"];",
 	"n = n + 1; return Meta[\"count\"] > 3 && len(keys(Meta)) == 2;",
+	// the verdict is a persistent number that every run decrements and increments again
+	"n = n + 1; open--; open++; return open;",
 }
 
 // the verdict a sequential run gives (independent of n for these scripts,
@@ -59,6 +61,8 @@ func zzC11Want(k int, o zzC11Obj) (bool, bool) {
 		return o.Count*2 > 6 && (o.Name == "steve" || o.Name == "bob"), true
 	case 6, 7:
 		return o.Count > 3, true
+	case 8:
+		return true, true
 	}
 	return false, false // depends on the order of the calls
 }
@@ -73,6 +77,7 @@ func ZZ_C11_SharedEvaluator(sv *zzsv.T) {
 	e := New(zzC11Scripts[k])
 	sv.Note("script", e.Script)
 	e.SetVariable("n", &object.Integer{Value: 0})
+	e.SetVariable("open", &object.Integer{Value: 1})
 	sv.Assume(e.Prepare() == nil)
 	objs := make([]zzC11Obj, n)
 	verdict := make([]bool, n)
@@ -121,6 +126,7 @@ func ZZ_C11_SeparateEvaluators(sv *zzsv.T) {
 		sv.Go(func() {
 			e := New(zzC11Scripts[k])
 			e.SetVariable("n", &object.Integer{Value: 0})
+			e.SetVariable("open", &object.Integer{Value: 1})
 			if e.Prepare() != nil {
 				failed[i] = true
 				return
